@@ -31,7 +31,7 @@ class C19(BaseCheck):
                  'ZooKeeper sequential nodes do); names can repeat only after the path itself was re-created',
                  'member data is well-formed JSON')
   QUICK_CASES = 960
-  THOROUGH_CASES = 6000
+  THOROUGH_CASES = 60000
   QUICK_WALL = 50
   THOROUGH_WALL = 420
   MIN_DISTINCT = 10
